@@ -105,7 +105,12 @@ def sequences(rng, pool, n):
                     kind = (kind[0], kind[1], t)
                 op = kind[1]
                 case = "F %d %s e%d" % (a, op, t) if " " not in op else "F %d %s%s" % (a, op.replace(" ", " "), "e%d" % t)
-                lines.append(to_source(case))
+                if rng.random() < 0.3:
+                    # the same target written relative to the location counter of THIS statement (whatever stands in front of it)
+                    txt = to_source(case)
+                    lines.append(txt[:txt.rindex(",") + 1 if "," in txt else txt.index(op.split()[0]) + len(op.split()[0])] + " %s%+d" % (rng.choice(["pc", "PC"]), t - a))
+                else:
+                    lines.append(to_source(case))
                 parts.append((case, None))
                 a += 1
             elif kind[0] == "abs":
